@@ -260,6 +260,23 @@ func expectation(r Req) (int, string) {
 		if len(r.S) == 0 {
 			bits = 0
 		}
+		if up := aztecUpperStuffed(r.S, ws); up >= 0 {
+			// upper-case letters only: 5 bits per character in the initial mode is the
+			// unique shortest encoding, so the stuffed length is exact
+			ubits := 5 * len(r.S)
+			ecc := int(math.Floor(float64(pct) * float64(ubits) / 100))
+			if comp && up > 64*ws {
+				return expReject, "more than 64 data words in a compact symbol"
+			}
+			if float64(up)+float64(ecc) > float64(total) {
+				return expReject, "stuffed payload plus requested check bits exceed the size"
+			}
+			// this implementation asks for 11 more bits than the percentage; allow one more word of slack
+			if up+ecc+11+ws <= total-total%ws {
+				return expAccept, fmt.Sprintf("%d stuffed bits + %d check bits fit %d", up, ecc, total)
+			}
+			return expDontCare, ""
+		}
 		if bits < 0 {
 			if len(r.S) <= 20 && pct <= 50 && l == 0 {
 				return expAccept, "small payload, automatic size"
@@ -382,6 +399,39 @@ func (c10) Gen(tier string, seed int64) []fw.Unit {
 				add("qr-v40", Req{Fam: "qr", S: qrForced(r, m, n), I: []int64{int64(lvl), qrModeOfInternal(m)}})
 				add("qr-v40-auto", Req{Fam: "qr", S: qrForced(r, m, n), I: []int64{int64(lvl), 0}})
 			}
+		}
+	}
+	// far beyond capacity: sizes at which 16- and 32-bit arithmetic would wrap
+	for _, n := range []int{8190, 8191, 8192, 8193, 8200, 10000, 16383, 16384, 16390, 19662, 20000, 32768, 40000, 65536, 70000, 131072} {
+		for lvl := int64(0); lvl < 4; lvl += 3 {
+			add("qr-huge", Req{Fam: "qr", S: randBytes(r, n, highAB), I: []int64{lvl, 3}})
+			add("qr-huge", Req{Fam: "qr", S: randBytes(r, n, highAB), I: []int64{lvl, 0}})
+			add("qr-huge", Req{Fam: "qr", S: randBytes(r, n*12/5, digitsAB), I: []int64{lvl, 1}})
+			add("qr-huge", Req{Fam: "qr", S: randBytes(r, n*16/11, qrAlnumAB), I: []int64{lvl, 2}})
+			add("qr-huge", Req{Fam: "qr", S: randBytes(r, n*12/5, digitsAB), I: []int64{lvl, 0}})
+		}
+		add("dm-huge", Req{Fam: "datamatrix", S: randBytes(r, n, upperAB)})
+		add("dm-huge", Req{Fam: "datamatrix", S: randBytes(r, n/2, highAB)})
+		if n <= 20000 {
+			add("aztec-huge", Req{Fam: "aztec", S: randBytes(r, n, highAB), I: []int64{int64(r.Intn(50)), int64(pick(r, []int{0, 32, -4}))}})
+		}
+	}
+	// runes above U+00FF whose truncation to a byte is a valid character of the symbology
+	for _, base := range []rune{0x100, 0x300, 0x1000, 0x10000} {
+		for _, low := range "0159AZ-$: %+./" {
+			ru := string(base + low)
+			add("truncating-rune", Req{Fam: "qr", S: []byte("AB" + ru + "12"), I: []int64{1, 2}})
+			add("truncating-rune", Req{Fam: "qr", S: []byte("12" + ru + "34"), I: []int64{1, 1}})
+			add("truncating-rune", Req{Fam: "code39", S: []byte("AB" + ru), I: []int64{1, 0}})
+			add("truncating-rune", Req{Fam: "code39", S: []byte("ab" + ru), I: []int64{0, 1}})
+			add("truncating-rune", Req{Fam: "code93", S: []byte("AB" + ru), I: []int64{1, 0}})
+			add("truncating-rune", Req{Fam: "code93", S: []byte("ab" + ru), I: []int64{0, 1}})
+			add("truncating-rune", Req{Fam: "code128", S: []byte("ab" + ru + "12")})
+			add("truncating-rune", Req{Fam: "codabar", S: []byte("A1" + ru + "2B")})
+			add("truncating-rune", Req{Fam: "ean", S: []byte("123456" + ru)[:7]})
+			add("truncating-rune", Req{Fam: "ean", S: []byte("12345" + ru)})
+			add("truncating-rune", Req{Fam: "2of5", S: []byte("1" + ru), I: []int64{1}})
+			add("truncating-rune", Req{Fam: "2of5", S: []byte("12" + ru), I: []int64{0}})
 		}
 	}
 	nlow := 40
@@ -572,4 +622,50 @@ func aztecStuffedLen(b []byte, ws int) int {
 		n += ws
 	}
 	return n
+}
+
+// aztecUpperStuffed: exact stuffed length (bits) of a payload of upper-case letters
+// and spaces encoded in Upper mode, or -1 if the payload has other characters.
+func aztecUpperStuffed(b []byte, ws int) int {
+	if len(b) == 0 {
+		return -1
+	}
+	var bits []bool
+	for _, c := range b {
+		v := 0
+		switch {
+		case c == ' ':
+			v = 1
+		case c >= 'A' && c <= 'Z':
+			v = int(c-'A') + 2
+		default:
+			return -1
+		}
+		for i := 4; i >= 0; i-- {
+			bits = append(bits, v>>uint(i)&1 == 1)
+		}
+	}
+	n := len(bits)
+	words := 0
+	for i := 0; i < n; {
+		allOne, allZero := true, true
+		for j := 0; j < ws-1; j++ {
+			bit := true // padding with ones beyond the end
+			if i+j < n {
+				bit = bits[i+j]
+			}
+			if bit {
+				allZero = false
+			} else {
+				allOne = false
+			}
+		}
+		if allOne || allZero {
+			i += ws - 1
+		} else {
+			i += ws
+		}
+		words++
+	}
+	return words * ws
 }
